@@ -370,7 +370,7 @@ def nat_unpivot_rows(h):
 
 
 UNPIVOT_SPEC = '''
-def unpivot_plan(fields, unpivot_fields, regex, match, sub):
+def unpivot_plan(fields, unpivot_fields, regex, match, expand):
     remaining = list(fields)
     selected = []
     for u in unpivot_fields:
@@ -381,7 +381,7 @@ def unpivot_plan(fields, unpivot_fields, regex, match, sub):
             for k in u['keys']:
                 v = u['keys'][k]
                 if regex and isinstance(v, str):
-                    v = sub(u['name'], v, f['name'])
+                    v = expand(u['name'], v, f['name'])        # the template expanded on the full match of the field name
                 keys[k] = v
             selected.append((f, keys))
     return selected, remaining
@@ -428,7 +428,7 @@ def sym_unpivot_pkg(vc):
                             return r if isinstance(r, bool) else wrap(r)
 
                         def sub(it_, a, k):
-                            return wrap(lib.RE_SUB(term(a[0], StrS), term(a[1], StrS), term(a[2], StrS)))
+                            return wrap(lib.RE_EXPAND(term(a[0], StrS), term(a[1], StrS), term(a[2], StrS)))
                         sp = spec.bind(it)
 
                         def res_start(it, env, rd):
@@ -467,9 +467,17 @@ def sym_unpivot_pkg(vc):
                             ws = [e for e in tree_writes_under(events, rd) if e.kind == 'TreeWrite' and e.key == 'fields']
                             oks = len(ws) == 1 and isinstance(ws[0].value, PyList) and \
                                 len(ws[0].value.items) == len(remaining.items) + 2 and \
-                                all(a is b for a, b in zip(ws[0].value.items, remaining.items)) and \
-                                ws[0].value.items[-1] is extra_value and ws[0].value.items[-2] is extra_keys.items[0]
+                                all(a is b for a, b in zip(ws[0].value.items, remaining.items))
                             check(it, 'schema-is-kept-then-keys-then-value' + tag, oks)
+                            if oks:
+                                # the appended descriptors EQUAL the caller's extra_keys / extra_value and are this resource's OWN
+                                # objects (shared ones would let an in-place edit of one resource's field reach the others)
+                                lastv, lastk = ws[0].value.items[-1], ws[0].value.items[-2]
+                                same = lambda a, b: isinstance(a, PyDict) and isinstance(b, PyDict) and set(a.d) == set(b.d) and \
+                                    all(a.d[k] is b.d[k] or a.d[k] == b.d[k] for k in a.d)
+                                check(it, 'extra-fields-equal-the-specification' + tag, same(lastv, extra_value) and same(lastk, extra_keys.items[0]))
+                                check(it, 'extra-fields-are-not-shared-between-resources' + tag,
+                                      lastv is not extra_value and lastk is not extra_keys.items[0])
                             cover(it, 'reachable' + tag)
                         it.loops['func#L0'] = LoopSpec(at_start=res_start, at_end=res_end, keep=('all_res_config',))
                         it.loops['func#L4'] = LoopSpec(modes=('exit',))
@@ -483,27 +491,51 @@ def sym_unpivot_pkg(vc):
 def nat_unpivot_flow(h):
     """bounded end-to-end: unpivot on real packages (overlapping specs included) against an independent reference"""
     import re
-    from dataflows import Flow, unpivot
+    from dataflows import Flow, unpivot, set_type, rename_fields
+    # two resources unpivoted by one step, then a step restricted to ONE of them edits the new field in place
+    for second in (lambda: set_type('value', resources='res_1', type='string', transform=str), lambda: rename_fields({'value': 'v2'}, resources='res_1')):
+        got = h.run(lambda: Flow([{'id': 1, 'x': 5}], [{'id': 2, 'x': 7}],
+                                 unpivot([dict(name='x', keys=dict(k='x'))], [dict(name='k', type='string')], dict(name='value', type='integer')),
+                                 second()).results(on_error=None))
+        if got[0] == 'ok':
+            res, dp, _ = got[1]
+            rd = dp.descriptor['resources'][1]
+            fl = [(f['name'], f['type']) for f in rd['schema']['fields']]
+            h.check(fl == [('id', 'integer'), ('k', 'string'), ('value', 'integer')] and res[1] == [{'id': 2, 'k': 'x', 'value': 7}],
+                    'dataflows/processors/unpivot.py::unpivot.func', 'second resource after a step on res_1 only',
+                    "[('id','integer'),('k','string'),('value','integer')]", (fl, res[1]))
+    # literal mode (regex=False): names are compared as they are (metacharacters included) and key values are constants
+    lit_rows = [{'id': 1, 'a.b': 'p', '[x]': 'q', 'a+b': 'r', 'axb': 's'}]
+    for name, const in (('a.b', r'C:\new\table'), ('[x]', r'col\1'), ('a+b', r'\g<0>'), ('a.b', 'plain'), ('axb', r'tab\t')):
+        got = h.run(lambda: Flow([dict(r) for r in lit_rows],
+                                 unpivot([dict(name=name, keys=dict(key=const))], [dict(name='key', type='string')],
+                                         dict(name='value', type='string'), regex=False)).results()[0][0])
+        want = [dict({k: v for k, v in lit_rows[0].items() if k != name}, key=const, value=lit_rows[0][name])]
+        h.check(got[0] == 'ok' and got[1] == want, 'dataflows/processors/unpivot.py::unpivot.func', ('literal mode', name, const), want, got[:2])
     cols_pool = ['2000', '2001', 'q1_sales', 'q2_sales', 'name', 'id']
     for _ in range(h.n(30, 300)):
         cols = h.rng.sample(cols_pool, h.rng.randint(2, 5))
         rows = [{c: '%s-%d' % (c, i) for c in cols} for i in range(h.rng.randint(0, 3))]
         specs = []
         for _s in range(h.rng.randint(1, 2)):
-            kind = h.rng.choice(['lit', 're', 'all'])
+            kind = h.rng.choice(['lit', 're', 'all', 'nullable'])
             if kind == 'lit':
                 specs.append(dict(name=re.escape(h.rng.choice(cols)), keys=dict(key='const')))
             elif kind == 're':
                 specs.append(dict(name=r'([0-9]{4})', keys=dict(key=r'\1')))
-            else:
+            elif kind == 'all':
                 specs.append(dict(name=r'(q\d)_sales', keys=dict(key=r'\1')))
+            elif kind == 'nullable':
+                # patterns that also match the empty string or match lazily: the key must still come from the FULL match
+                specs.append(h.rng.choice([dict(name=r'[0-9]*', keys=dict(key='year')), dict(name=r'(\d*)', keys=dict(key=r'y\1')),
+                                           dict(name=r'(\d+?)', keys=dict(key=r'y\1')), dict(name=r'q1|q1_sales', keys=dict(key='K'))]))
         remaining = list(cols)
         sel = []
         for u in specs:
             taken = [c for c in remaining if re.fullmatch(u['name'], c)]
             remaining = [c for c in remaining if not re.fullmatch(u['name'], c)]
             for c in taken:
-                sel.append((c, {k: re.sub(u['name'], v, c) for k, v in u['keys'].items()}))
+                sel.append((c, {k: re.fullmatch(u['name'], c).expand(v) for k, v in u['keys'].items()}))
         want = []
         for r in rows:
             for c, keys in sel:
